@@ -265,6 +265,9 @@ def build_generic(sc, sid, container_fn, d_extra=()):
     # handles file: package-level variables, helper types, aliases
     h = Out("%s/zz_handles.go" % pkg, pkg)
     h.add("var cond bool", "var ch chan int", "", "func run(f func()) { f() }", "", "// O is an un-annotated local type.", "type O struct{ X int }", "")
+    if pkg == "d" and n % 2 == 0 and any(c.get("kind") == "ctor1" for conts in sc["files"] for c in conts):
+        # a method of another type that is merely called like the constructor function, declared after it (this file sorts last)
+        h.add("// NewT of O has nothing to do with T.", "func (o *O) NewT() {}", "")
     if sps & {"alias", "chain", "ptrofalias"}:
         h.add("type TA = %sT" % qual, "")
     if "chain" in sps:
